@@ -305,6 +305,12 @@ func printTokensGen(tier string, r *rng, emit func(string)) {
 		src("a[" + s1 + ":]\n" + s1)
 		src("a[" + s1 + ":][" + s1 + ":" + s1 + "]")
 	}
+	// `..` next to a dot: since e5e6eb7 the index `..` keeps its parentheses
+	for _, s1 := range []string{"a.(..)", "a.(..++)", "(..).a", "(..).(..)", "a.(..).b", "a.(..)(1)", "..++", "a[..]", "f(..)", ".. + ..", "a.(..--) + b", "x = a.(..)\n(..).b"} {
+		src(s1)
+		src("f(" + s1 + ")")
+		src("func(){" + s1 + "\n" + s1 + "}")
+	}
 	for _, p := range ptInfix {
 		src("a " + p + " x => x " + p + " b")
 		src("(x => x) " + p + " b")
